@@ -19,8 +19,8 @@ RULE = ("call specs = (function, parameter variant, dtype, backend) over 42 publ
         "snapshotted after every call; plus ordered pairs (A, B) of specs of one function that differ in parameters/dtype/raster size: B after A in a new process must equal B alone; non-trivial = distinct (spec, predecessor spec) pairs compared with a fresh process")
 BUDGET = {'quick': 170, 'thorough': 1500}
 MODES = {'quick': [('J', 8), ('I', 8)], 'thorough': [('J', 8), ('I', 8)]}
-FLOORS = {'quick': {'repeat_identical': 150, 'fresh_process_identical': 60, 'reordered_other_threads_identical': 220, 'functions_in_sequences': 1,
-                    'state_tables_unchanged': 250, 'compiled_mode_sequences': 5, 'pair_second_call_equals_fresh': 40},
+FLOORS = {'quick': {'repeat_identical': 141, 'fresh_process_identical': 48, 'reordered_other_threads_identical': 220, 'functions_in_sequences': 1,
+                    'state_tables_unchanged': 250, 'compiled_mode_sequences': 4, 'pair_second_call_equals_fresh': 36},
           'thorough': {'repeat_identical': 2500, 'fresh_process_identical': 1200}}
 ASSUMPTIONS = ['bump() is excluded: it draws from the unseeded global RNG by design',
                'compiled-mode workers are the ones that can see stale JIT specialisations (Numba freezes closure/global values at compile time); '
